@@ -47,6 +47,11 @@ def gen_install(rnd, svc):
                                                               'multi-user.target.requires', 'a.service/b/c.service']))
             lines.append(f'{key}={" ".join(ws)}')
     d = rnd.choice(DEFINST)
+    if '@.' in svc and rnd.random() < 0.5:
+        # a template without instance: its aliases are links like any others, whether or not there is a DefaultInstance
+        lines.append('Alias=' + rnd.choice(['front@.service', 'nested/dir/www@.service', 'plain-alias.service', 'x.service y.service']))
+        if rnd.random() < 0.6:
+            d = None
     if d is not None:
         lines.append(f'DefaultInstance={d}')
     rnd.shuffle(lines)
